@@ -124,6 +124,7 @@ fn main() {
                     "threads" => record::gen_threads(&mut rec, &mut rng, n, threads_arg),
                     "deep" => record::gen_deep(&mut rec, &mut rng, n),
                     "builtins" => record::gen_builtins(&mut rec, &mut rng, n),
+                    "literals" => record::gen_literals(&mut rec, &mut rng, n),
                     other => {
                         eprintln!("unknown generator {other}");
                         std::process::exit(2);
